@@ -248,3 +248,28 @@ def _zstr(t):
     if z3.is_string_value(t):
         return t.as_string()
     raise ModelDecodeError('not a string value: %s' % t)
+
+
+# length of strings / bytes: an uninterpreted function unless the engine runs
+# in string-theory mode (keeps the sequence solver out of queries that only
+# need "a length")
+StrLenUF = z3.Function('StrLen', z3.StringSort(), z3.IntSort())
+STRING_THEORY = [False]
+
+
+def strlen(s):
+    if STRING_THEORY[0]:
+        return z3.Length(s)
+    s = z3.simplify(s)
+    if z3.is_string_value(s):
+        return z3.IntVal(len(s.as_string()))
+    return StrLenUF(s)
+
+
+def strlen_axioms(s):
+    if STRING_THEORY[0]:
+        return []
+    s = z3.simplify(s)
+    if z3.is_string_value(s):
+        return []
+    return [StrLenUF(s) >= 0, (StrLenUF(s) == 0) == (s == z3.StringVal(""))]
